@@ -6,6 +6,19 @@ import shutil
 from .common import HARNESS, sh
 
 NCRATES = 8
+_LOCK = None
+
+
+def _lock():
+    """the eight crates are shared by every check that compiles emitted code: a check takes an exclusive lock at its first use of
+    them and keeps it until its process ends, so that checks started at the same time queue up instead of overwriting each other's
+    generated modules"""
+    global _LOCK
+    if _LOCK is None:
+        import fcntl
+        os.makedirs(os.path.join(HARNESS, "gc"), exist_ok=True)
+        _LOCK = open(os.path.join(HARNESS, "gc", ".lock"), "w")
+        fcntl.flock(_LOCK, fcntl.LOCK_EX)
 
 
 def gen_dir(i):
@@ -13,6 +26,7 @@ def gen_dir(i):
 
 
 def reset(i):
+    _lock()
     d = gen_dir(i)
     shutil.rmtree(d, ignore_errors=True)
     os.makedirs(d)
@@ -21,6 +35,7 @@ def reset(i):
 
 def write_crate(i, modules, driver="fn main() {}\n", extra_files=None):
     """modules: list of (module_name, path of emitted .rs or source text given as ('text', str))"""
+    _lock()
     d = gen_dir(i)
     shutil.rmtree(d, ignore_errors=True)
     os.makedirs(d)
@@ -41,6 +56,7 @@ def write_crate(i, modules, driver="fn main() {}\n", extra_files=None):
 
 
 def cargo(cmd, crates, timeout=3000):
+    _lock()
     args = ["cargo", cmd, "--offline", "--message-format=short"]
     for i in crates:
         args += ["-p", f"gc{i}"]
